@@ -231,8 +231,9 @@ class Gen:
                     # due for these completions - but nothing of the call may stay behind in the tracer either
                     fn = Fn(idx, kind, "plain", name, name, "may", sig, access=name)
                     module_funcs.append([f"def {name}(n0):", f"    _loc = {self.value()}", "    _l = [n0]", "    _l.append(_l)"]
-                                        + (["    _sink(_l)"] if rng.random() < 0.5 else []) + ["    return _l"])
-                    labels["_sink"] = "may"
+                                        + (["    _sink(n0)", "    _sink(_l)", "    _sink(n0)"] if rng.random() < 0.5 else []) + ["    return _l"])
+                    # _sink is an ordinary module function: the calls around the one whose argument cannot be typed must be logged
+                    labels["_sink"] = "must"
                 elif kind == "mutret":
                     # the returned object is one of the arguments, changed in place during the call
                     fn = Fn(idx, kind, "plain", name, name, "must", sig, access=name)
